@@ -11,8 +11,21 @@ import (
 // Available reports whether the binary was built with the sync shim overlay.
 const Available = true
 
+// streamOrder is the order in which the harness opened its change streams in the current execution;
+// Engine.Close walks them in that order (it collects them from a map, whose iteration order is random).
+var streamOrder = map[*lungo.Stream]int{}
+
+// NoteStream records a stream the harness has just opened.
+func NoteStream(s interface{}) {
+	if st, ok := s.(*lungo.Stream); ok {
+		streamOrder[st] = len(streamOrder) + 1
+	}
+}
+
 func install(x *Exec) {
 	current = x
+	streamOrder = map[*lungo.Stream]int{}
+	lungo.VerifStreamLess = func(a, b *lungo.Stream) bool { return streamOrder[a] < streamOrder[b] }
 	verifshim.Yield = func(kind string, obj interface{}, ready func() bool) { hookAwait(kind, obj, ready) }
 	dbkit.VerifAwait = hookAwait
 	lungo.VerifAwait = hookAwait
@@ -29,6 +42,7 @@ func install(x *Exec) {
 
 func uninstall() {
 	current = nil
+	lungo.VerifStreamLess = nil
 	verifshim.Yield = nil
 	dbkit.VerifAwait = nil
 	lungo.VerifAwait = nil
